@@ -125,7 +125,8 @@ CLAIMED["C18"] = dict(
 
 CLAIMED["C19"] = dict(
     text=("Partial proof of the per-node discipline of the selector trie: getRules collects a node's own (exact) rules only when the looked-up name ends at that node, and a node's wildcard rules only for names that continue below it "
-          "(so a selector that is a proper prefix of a method name, without wildcard, is not bound to the method, and pkg.Service.* does not match pkg.Service itself)."),
+          "(so a selector that is a proper prefix of a method name, without wildcard, is not bound to the method, and pkg.Service.* does not match pkg.Service itself); setRules files a trailing '*' component in the wildcard list and the end of a name in the exact list; "
+          "appendHandler compiles the implicit rule, the service-config rules (looked up after the implicit rule, by the method's full name) and the annotation through the same addRule call with the same method descriptor and handler name."),
     note=TRUST + "Two one-line clauses on getRules, written from the property statement; they decide the negative direction ('a rule must not leak') locally. Not decided: that setRules files every selector under the right node (its recursive closure calls itself through a captured variable and is abstracted), that a bound service-config rule behaves like an annotation (same addRule call in appendHandler, by inspection), the health service end to end.",
     ref="DESIGN.md sections 5 C19 and 10.3")
 
